@@ -218,6 +218,36 @@ def handle (s : St) (j : Json) : R (St × Json) := do
         pure (s, Json.mkObj [("r", "ok"), ("deliveries", Json.arr (ds.map jDelivery).toArray),
                              ("parked", Json.num s'.pending.length),
                              ("out", Json.arr (o.map jOut).toArray)])
+  | "run_world" =>
+      -- STATEFUL global simulator: originate at node `from`, then process frames FIFO
+      let topo ← (← fldArr j "topo").toList.mapM tnodeOf
+      let i ← fldNat j "from"
+      let fuel ← fldNat j "fuel"
+      let w0 : World := topo.map (fun t => { node := t.node, cache := t.cache })
+      match w0[i]? with
+      | none => throw "no such node"
+      | some st =>
+        let dest ← addrOf (← fld j "dest")
+        let (st', o) := originate st dest (← fldBool j "er") (← fldNat j "prio") (← fldHex j "data")
+        let w1 := w0.set i st'
+        -- iterate `runWorld 1`, recording the frame processed at each step
+        let rec go (n : Nat) (w : World) (q : List Packet) (d : List Delivery) (seen : List Packet) :
+            World × List Packet × List Delivery × List Packet :=
+          match n, q with
+          | 0, _ => (w, q, d, seen)
+          | _, [] => (w, q, d, seen)
+          | n + 1, f :: _ =>
+            let r := runWorld 1 w q d
+            go n r.1 r.2.1 r.2.2 (f :: seen)
+        let (w2, q2, d2, seen) := go fuel w1 (originPackets o) [] []
+        let jPacket (f : Packet) : Json :=
+          Json.mkObj [("lan", Json.num f.lan), ("src", jHex f.src), ("dst", jLink f.dst), ("npci", jNpci f.npci)]
+        pure (s, Json.mkObj [("r", "ok"),
+          ("deliveries", Json.arr (d2.map jDelivery).toArray),
+          ("frames", Json.arr (seen.reverse.map jPacket).toArray),
+          ("left", Json.num q2.length),
+          ("caches", Json.arr (w2.map (fun x => jCache x.cache)).toArray),
+          ("pending", Json.arr (w2.map (fun x => (Json.num x.pending.length : Json))).toArray)])
   | op => throw s!"unknown op {op}"
 
 def main : IO Unit := loopS (default : St) handle
